@@ -105,6 +105,7 @@ func (x *Exec) callSiteObligations(st *State, fr *Frame, in ssa.Instruction, cal
 		} else if want != name {
 			continue
 		}
+		x.note(fmt.Sprintf("cs-hit:%d", cs.Clause.Ord))
 		env := &Env{x: x, st: st, fr: fr, pos: in.Pos(), pkg: pkgOf(fr.fn), vars: map[string]Val{}, old: x.entryEnv}
 		all := args
 		if call.IsInvoke() {
@@ -524,8 +525,11 @@ func (x *Exec) applyContractSig(st *State, fr *Frame, fc *FuncContract, sig *typ
 	}
 	if x.selfApply {
 		x.selfApply = false
-		for _, c := range x.freeCells {
-			if t := x.freeCellTypes[c]; t != nil {
+		assigned := assignedFreeVars(x.topFn)
+		for name, c := range x.freeCells {
+			// only the captured variables the closure (or a closure nested in it) assigns; the others
+			// still hold what they held (their referents are covered by the frame clause)
+			if t := x.freeCellTypes[c]; t != nil && assigned[name] {
 				st.cellv[c] = x.mkFresh(t, "free_"+c.Name)
 			}
 		}
@@ -1051,4 +1055,26 @@ func (x *Exec) functionalResult(st *State, fc *FuncContract, sig *types.Signatur
 	}
 	v, _ := unflatten(rt, ts)
 	return v
+}
+
+// assignedFreeVars: names of the captured variables that fn, or a closure nested in it, stores to.
+func assignedFreeVars(fn *ssa.Function) map[string]bool {
+	out := map[string]bool{}
+	var walk func(f *ssa.Function)
+	walk = func(f *ssa.Function) {
+		for _, b := range f.Blocks {
+			for _, in := range b.Instrs {
+				if st, ok := in.(*ssa.Store); ok {
+					if fv, ok := st.Addr.(*ssa.FreeVar); ok {
+						out[fv.Name()] = true
+					}
+				}
+			}
+		}
+		for _, a := range f.AnonFuncs {
+			walk(a)
+		}
+	}
+	walk(fn)
+	return out
 }
